@@ -681,3 +681,161 @@ def run_pn_direction(ctx, rep, n_cases=None):
         if any(dw[j] != 0 for j in zero_cols):
             rep.violate("the inner solver moves the coefficient of an all-zero column", dict(site=site, kind="null-column"),
                         input=inp, impl_output=dict(delta=delta.tolist()), lines=[line[:300]])
+
+
+# ------------------------------------------------------------------ GroupProxNewton line search
+def run_gpn_linesearch(ctx, rep, n_cases=None):
+    """`_backtrack_line_search` of group_prox_newton.py vs `gpnBacktrack` (Model/GroupProxNewton.lean).  The model is
+    faithful to the code's unhandled exit (the last trial point is kept when every test fails), for which Lean proves
+    that the objective can increase (`gpn_failed_search_can_ascend`): ascents found here are reported with the
+    signature of the recorded finding KF-GPN-LINESEARCH."""
+    from skglm.datafits import LogisticGroup
+    from skglm.solvers.group_prox_newton import _backtrack_line_search, MAX_BACKTRACK_ITER
+    rng = ctx.rng
+    n_cases = n_cases or ctx.n(40, 400)
+    lines, metas = [], []
+    for _ in range(n_cases):
+        n, p = rng.randrange(3, 9), rng.randrange(2, 7)
+        X = np.asfortranarray(gen_matrix(rng, n, p, "gauss")) * 0.5
+        y = np.array([rng.choice([-1.0, 1.0]) for _ in range(n)])
+        groups, gp, gi = group_layout(rng, p)
+        G = len(groups)
+        kind = gen.pick(rng, ["wgl2", "wgl2", "wgl2+", "wl1gl2"])
+        alpha = gen.pick(rng, [0.01, 0.05, 0.2])
+        blk = Blk("wgl2" if kind.startswith("wgl2") else "wl1gl2", alpha, positive=kind == "wgl2+")
+        wgs = np.array([gen.pick(rng, [0.5, 1.0, 2.0]) for _ in range(G)])
+        wfs = np.array([gen.pick(rng, [0.0, 0.5, 1.0, 2.0]) for _ in range(p)])
+        pen = compiled_blk(blk, wgs, wfs if blk.kind == "wl1gl2" else None, gp, gi)
+        dfit = compiled(LogisticGroup(gp, gi))
+        fi = rng.random() < 0.5
+        w0 = np.array([rng.gauss(0, 0.7) if rng.random() < 0.6 else 0.0 for _ in range(p)])
+        if blk.positive:
+            w0 = np.abs(w0)
+        b0 = rng.gauss(0, 0.3) if fi else 0.0
+        Xw0 = X @ w0 + b0
+        ws = [g for g in range(G) if rng.random() < 0.7] or [0]
+        rng.shuffle(ws)
+        ws = np.array(ws, dtype=np.int64)
+        stack = [j for g in ws for j in groups[g]]
+        mode = gen.pick(rng, ["random", "random", "descent", "ascent", "overshoot"])
+        scale = {"overshoot": 40.0}.get(mode, gen.pick(rng, [0.3, 1.0, 5.0]))
+        g_all = X.T @ (-y / (1 + np.exp(y * Xw0))) / n
+        if mode == "descent":
+            dws = -scale * g_all[stack]
+        elif mode == "ascent":
+            dws = scale * (g_all[stack] + 0.1 * np.sign(g_all[stack]))
+        else:
+            dws = np.array([rng.gauss(0, 1) * scale for _ in stack])
+        db = (rng.gauss(0, 1) * scale if mode != "ascent" else scale * float(np.sum(-y / (1 + np.exp(y * Xw0))) / n)) if fi else 0.0
+        dfull = np.zeros(p)
+        for pos, j in enumerate(stack):
+            dfull[j] += dws[pos]
+        Xd = X @ dfull + db
+        delta = np.append(dws, db) if fi else dws.copy()
+        prob = (f"logistic {n} {p} {mat(X)} {_v(np.ones(n))} {_v(y)} {blk.tokens()} {_groups_tokens(groups)} "
+                f"{vec(wgs)} {_v(wfs if blk.kind == 'wl1gl2' else np.ones(p))} {vec(np.ones(G))} {b(fi)}")
+        st = f"{_v(w0)} {fb(b0)} {_v(Xw0)}"
+        line = f"gpn_backtrack {prob} {st} {ivec(ws)} {vec(dws)} {fb(db)} {_v(Xd)} {MAX_BACKTRACK_ITER}"
+        inp = dict(X=X.tolist(), y=y.tolist(), penalty=blk.describe(), groups=groups, weights_groups=wgs.tolist(),
+                   weights_features=wfs.tolist(), fit_intercept=fi, w=w0.tolist(), intercept=b0, ws=ws.tolist(),
+                   delta_w_ws=delta.tolist(), direction=mode)
+        w1 = np.append(w0.copy(), b0)
+        Xw1 = Xw0.copy()
+        r = call(_backtrack_line_search, X, y, w1, Xw1, fi, dfit, pen, delta.copy(), Xd.copy(), ws)
+        lines.append(line)
+        metas.append((r, w1, Xw1, inp, w0, b0, X, y, blk, groups, wgs, wfs))
+    outs = lean.drive(lines)
+    for line, out, (r, w1, Xw1, inp, w0, b0, X, y, blk, groups, wgs, wfs) in zip(lines, outs, metas):
+        m = decode(out)
+        p = X.shape[1]
+        site = "group_prox_newton._backtrack_line_search"
+        if isinstance(r, str):
+            rep.violate(f"{site} raises {r}", dict(site=site, kind="raises"), input=inp, impl_output=r, lines=[line[:300]])
+            continue
+        i_state = [float(t) for t in w1[:p]] + [float(w1[p])] + [float(t) for t in Xw1]
+        m_state, m_test, m_acc = m[:len(i_state)], m[len(i_state)], m[len(i_state) + 1]
+        rep.count(f"gpn:ls:{blk.kind}:{inp['direction']}:{'full' if m_acc == 'T' else 'backtracked-or-failed'}", False,
+                  ("gpn", hash(line)))
+        clear = isinstance(m_test, str) or math.isinf(m_test) or abs(m_test) > 1e-9
+        if clear and not same(i_state, m_state, 1e-8, 1e-10):
+            rep.disagree("K:gpn-linesearch", line[:300], i_state, m_state, dict(site=site), input=inp)
+        buf = X @ w1[:p] + w1[p]
+        if not np.allclose(buf, Xw1, rtol=1e-8, atol=1e-8):
+            rep.violate("after the group line search the model-fit buffer is not X w + intercept", dict(site=site, kind="buffer"),
+                        input=inp, impl_output=dict(w=w1.tolist(), Xw=Xw1.tolist()), oracle=dict(Xw=buf.tolist()))
+        f0 = _grp_objective("logistic", X, y, w0, b0, blk, groups, wgs, wfs)
+        f1 = _grp_objective("logistic", X, y, w1[:p], w1[p], blk, groups, wgs, wfs)
+        if math.isfinite(f0) and not (f1 <= f0 + 1e-9 * (1 + abs(f0))):
+            # proved possible for this code (Lean: gpn_failed_search_can_ascend); recorded finding KF-GPN-LINESEARCH
+            rep.violate("the group prox-Newton line search returns a point with a larger documented objective than its start "
+                        "(no step accepted in 20 halvings: the last trial point is kept)",
+                        dict(site=site, solver="GroupProxNewton", kind="ascent"), input=inp,
+                        impl_output=dict(w=w1.tolist()), oracle=dict(before=f0, after=f1))
+
+
+# ------------------------------------------------------------------ FISTA (whole runs, black box)
+def run_fista(ctx, rep, n_cases=None):
+    """`FISTA._solve` for k iterations from a given start vs `FistaProb.solve` (Model/FISTA.lean) with the same global
+    constant: returned coefficients, stopping value and objective history."""
+    from skglm.solvers import FISTA
+    rng = ctx.rng
+    n_cases = n_cases or ctx.n(40, 400)
+    lines, metas = [], []
+    for _ in range(n_cases):
+        n, p = rng.randrange(3, 9), rng.randrange(1, 6)
+        X = np.asfortranarray(gen_matrix(rng, n, p, gen.pick(rng, ["gauss", "gauss", "degenerate"])))
+        dfk = gen.pick(rng, ["quadratic", "quadratic", "logistic", "huber"])
+        df = Dfit("huber", 1.35) if dfk == "huber" else Dfit(dfk)
+        y = np.array([rng.choice([-1.0, 1.0]) for _ in range(n)]) if dfk == "logistic" else \
+            np.array([rng.gauss(0, 1) for _ in range(n)])
+        pk = gen.pick(rng, ["l1", "l1", "l1+", "l1l2", "wl1", "mcp", "box", "pos"])
+        alpha = gen.pick(rng, [0.01, 0.05, 0.2, 0.5])
+        pen = {"l1+": Pen("l1", alpha, positive=True), "l1l2": Pen("l1l2", alpha, l1_ratio=0.5),
+               "mcp": Pen("mcp", alpha, gamma=30.0), "box": Pen("box", 1.0), "pos": Pen("pos")}.get(pk) or Pen(pk, alpha)
+        wts = [gen.pick(rng, [0.0, 0.5, 1.0, 2.0]) if pen.kind in Pen.WEIGHTED else 1.0 for _ in range(p)]
+        pobj = compiled_pen(pen, wts if pen.kind in Pen.WEIGHTED else None)
+        dobj = compiled_df(df)
+        dobj.initialize(X, y)
+        L = call(dobj.get_global_lipschitz, X, y)
+        if isinstance(L, str) or not L > 0:
+            continue
+        k = gen.pick(rng, [0, 1, 2, 3, 5, 8])
+        tol = gen.pick(rng, [0.0, 1e-12, 1e-3, 1e-1])
+        warm = rng.random() < 0.5
+        w0 = np.array([rng.gauss(0, 1) if rng.random() < 0.6 else 0.0 for _ in range(p)])
+        if pen.positive or pen.kind in ("pos", "box"):
+            w0 = np.abs(w0)
+        if pen.kind == "box":
+            w0 = np.clip(w0, 0, 1.0)
+        r = call(lambda: FISTA(max_iter=k, tol=tol).solve(X, y, dobj, pobj, w0.copy() if warm else None,
+                                                          (X @ w0) if warm else None))
+        prob = f"{df.tokens()} {n} {p} {mat(X)} {_v(np.ones(n))} {_v(y)} {pen.tokens()} {_v(wts)} 0"
+        lines.append(f"fista_solve {prob} {fb(L)} {fb(tol)} {k} {b(warm)} {_v(w0)}")
+        metas.append((r, dict(datafit=df.describe(), X=X.tolist(), y=y.tolist(), penalty=pen.describe(), weights=wts, max_iter=k,
+                              tol=tol, w_init=w0.tolist() if warm else None, L=float(L)), X, y, df, pen, wts, p))
+    outs = lean.drive(lines)
+    import warnings as _w
+    for line, out, (r, inp, X, y, df, pen, wts, p) in zip(lines, outs, metas):
+        m = decode(out)
+        if isinstance(r, str):
+            rep.violate(f"FISTA.solve raises {r}", dict(site="FISTA.solve", kind="raises"), input=inp, impl_output=r)
+            continue
+        w, objs, stop = r
+        i = [float(t) for t in w] + [float(stop)] + [float(t) for t in objs]
+        rep.count(f"fista:{inp['datafit']['kind']}:{inp['penalty']['kind']}:k={inp['max_iter']}:{len(objs)}it",
+                  len(objs) == 0, ("fista", hash(line)))
+        # a stopping test that is a near-tie (stop within 1e-9 of tol) may resolve either way
+        if len(i) != len(m):
+            near = any(abs(float(s_) - inp["tol"]) <= 1e-9 * (1 + inp["tol"]) for s_ in [stop] if np.isfinite(stop))
+            if not near:
+                rep.disagree("K:fista-length", line[:300], i, m, dict(site="FISTA._solve"), input=inp)
+            continue
+        if not same(i, m, 1e-7, 1e-9):
+            rep.disagree("K:fista", line[:300], i, m, dict(site="FISTA._solve"), input=inp)
+        # C17 for FISTA: when the run stops on its tolerance the returned value is the violation of the returned point
+        if len(objs) and np.isfinite(stop):
+            f_true = df.ref_value(np.ones(len(y)), y, X @ w, w) + sum(pen.ref_pen1(x, t) for x, t in zip(w, wts))
+            if math.isfinite(f_true) and abs(objs[-1] - f_true) > 1e-9 * (1 + abs(f_true)):
+                rep.violate("FISTA: the last history entry is not the objective of the returned coefficients",
+                            dict(site="FISTA.solve", kind="history-last"), input=inp,
+                            impl_output=dict(history=[float(t) for t in objs], w=[float(t) for t in w]), oracle=dict(objective=f_true))
